@@ -318,6 +318,7 @@ class GenTie:
     compared = 0
     fallbacks = 0
     host_draws = 0
+    draws_total = 0
     last_address_forced = 0
     coin = random.Random(20261001)
 
@@ -387,21 +388,21 @@ class GenTie:
                                           f"the model function drawIPs (hosts zipped with the shuffled address list) to {[str(netaddr.IPAddress(model[k])) if k in model else None for k in bad]}", dict(rep, hosts=bad)))
         cum = {str(k): str(v) for k, v in self.w._network_mapping.items()}
         step = {self.cum_prev.get(k, k): v for k, v in cum.items()}
-        privs = sorted((n for n in step if netaddr.IPNetwork(n).ip.is_ipv4_private_use()), key=lambda n: (int(netaddr.IPNetwork(n).ip), int(n.split("/")[1])))
+        privs = [n for n in step if netaddr.IPNetwork(n).ip.is_ipv4_private_use()]      # in the order of the game's table: the model sorts them itself
         if not privs or not self.draws:
             return
-        if len(self.draws) > 10 and all(step[p] == p for p in privs):
+        if all(step[p] == p for p in privs):
             GenTie.fallbacks += 1       # no placement found: the current private networks are kept
-            return
         j = lambda n: [int(netaddr.IPAddress(n.split("/")[0])), int(n.split("/")[1])]
-        d = int(netaddr.IPAddress(self.draws[-1]))
-        m = self.drv.ask({"op": "relabel_private", "d": d, "nets": [j(p) for p in privs]})
+        # the whole retry loop (theorems relabelLoop_spec / relabelLoop_private): all values drawn during this reset, in order
+        m = self.drv.ask({"op": "relabel_loop", "draws": [int(netaddr.IPAddress(d)) for d in self.draws], "nets": [j(p) for p in privs]})
         GenTie.compared += 1
-        real = [j(step[p]) for p in privs]
-        if m.get("nets") != real:
-            GenTie.mismatches.append((f"private networks {privs} with drawn value {self.draws[-1]}: the game maps them to {[step[p] for p in privs]}, "
-                                      f"the model function relabelPrivate to {[str(netaddr.IPAddress(a)) + '/' + str(k) for a, k in m.get('nets', [])]}",
-                                      dict(rep, drawn=self.draws[-1], private_before=privs, private_after=[step[p] for p in privs])))
+        GenTie.draws_total += len(self.draws)
+        real = sorted([j(p), j(step[p])] for p in privs)
+        if sorted(m.get("map", [])) != real:
+            GenTie.mismatches.append((f"private networks {privs} with drawn values {self.draws[-12:]}: the game maps them to {[step[p] for p in privs]}, "
+                                      f"the model of the retry loop (sortNets, relabelLoop) to {[str(netaddr.IPAddress(b[0])) + '/' + str(b[1]) for a, b in m.get('map', [])]}",
+                                      dict(rep, drawn=self.draws[-12:], private_before=privs, private_after=[step[p] for p in privs])))
 
 
 # generated scenarios on which a re-labelling once failed (kept as a corpus that runs first)
@@ -504,7 +505,7 @@ def main(tier):
         V.proof_fail("correspondence NSG.relabelPrivate (theorem C13_generator) <-> NSGCoordinator._create_new_network_mapping: " + GenTie.mismatches[0][0])
     code, nviol = V.finish()
     cov = {"obligations": info.get("obligations", 0), "discharged": info.get("discharged", 0),
-           "generator_draws_compared": GenTie.compared, "generator_host_draws_compared": GenTie.host_draws, "shuffles_with_last_address_first": GenTie.last_address_forced, "generator_fallbacks": GenTie.fallbacks, "generator_mismatches": len(GenTie.mismatches),
+           "generator_draws_compared": GenTie.compared, "generator_values_drawn": GenTie.draws_total, "generator_host_draws_compared": GenTie.host_draws, "shuffles_with_last_address_first": GenTie.last_address_forced, "generator_fallbacks": GenTie.fallbacks, "generator_mismatches": len(GenTie.mismatches),
            "checker_cmd": "lake build NSG.Properties.C13 NSG.Properties.C13Goal NSG.Properties.C13Gen && lake env lean <#print axioms of every theorem>",
            "trusted_base": TRUSTED_BASE + ["Faker / random as seeded oracles: the value drawn for the private networks is recorded and fed to the model generator (relabelPrivate); public networks and host addresses inside each network are validated on every reset rather than modelled"],
            "theorems": info.get("theorems", []), "axioms_seen": info.get("axioms_seen", []),
